@@ -1,7 +1,7 @@
 (* C14 — Encoding respects the caller's buffer and the 64 KiB message limit. Statements only. *)
 From Coq Require Import List NArith Bool.
 Import ListNotations.
-From Rustun Require Import Base.Tlv Codec.EncodeInto Codec.EncodeMsg Proofs.EncodeMsgProofs.
+From Rustun Require Import Base.Tlv Codec.EncodeInto Codec.EncodeMsg Codec.Wire Proofs.EncodeMsgProofs Proofs.EncodeTailProofs.
 Open Scope N_scope.
 
 (* the encoder over plain attributes, with the caller's buffer explicit: it succeeds exactly when the message fits the
@@ -30,6 +30,28 @@ Theorem C14_model_meets_property : forall buf typ txid l, length txid = 12%nat -
   monitor_C14 (len buf) l (match encode_msg buf typ txid l with Ok (_, n) => Some (Some n) | Err => Some None | Panic => None end) = true.
 Proof. exact EncodeMsgProofs.model_meets_C14. Qed.
 Print Assumptions C14_model_meets_property.
+
+(* with the integrity / fingerprint attributes too: the bytes beyond the returned size are the caller's, untouched, and the
+   buffer keeps its length *)
+Theorem C14_tail_untouched : forall buf typ txid l out n, length txid = 12%nat ->
+  encode_msg buf typ txid l = Ok (out, n) -> drop n out = drop n buf /\ len out = len buf.
+Proof. exact EncodeTailProofs.encode_msg_tail. Qed.
+Print Assumptions C14_tail_untouched.
+
+(* the bytes written and the size do not depend on the buffer's previous contents or extra length *)
+Theorem C14_prefix_independent : forall buf buf' typ txid l out n out' n', length txid = 12%nat ->
+  encode_msg buf typ txid l = Ok (out, n) -> encode_msg buf' typ txid l = Ok (out', n') ->
+  n = n' /\ take n out = take n out'.
+Proof. exact EncodeTailProofs.encode_msg_prefix_independent. Qed.
+Print Assumptions C14_prefix_independent.
+
+(* the model satisfies the tail monitor that judges the implementation *)
+Theorem C14_model_meets_tail_property : forall buf typ txid l, length txid = 12%nat ->
+  monitor_C14_tail
+    (match encode_msg buf typ txid l with Ok (_, n) => Some (Some n) | Err => Some None | Panic => None end)
+    (match encode_msg buf typ txid l with Ok (out, n) => bytes_eqb (drop n out) (drop n buf) | _ => true end) = true.
+Proof. exact EncodeTailProofs.model_meets_C14_tail. Qed.
+Print Assumptions C14_model_meets_tail_property.
 
 (* non-vacuity, and the defect of the pinned commit (D5): 65,516 attribute bytes fit the length field, yet a 16-bit
    accumulator overflows on `length + 20` *)
